@@ -423,8 +423,9 @@ def dump_hex(lines):
 
 
 class Problem:
-    def __init__(self, job, kind, cat, text, line=None, impl=None, model=None, expect=None):
+    def __init__(self, job, kind, cat, text, line=None, impl=None, model=None, expect=None, observed=None):
         self.job, self.kind, self.cat, self.text, self.line, self.impl, self.model, self.expect = job, kind, cat, text, line, impl, model, expect
+        self.observed = observed          # the violating transcript line: the replay fails while the library still answers it
         self.twin_script = None
 
 
@@ -474,7 +475,8 @@ def analyse(job, impl, model):
                 if m.strip() != "frames=%d" % F:
                     probs.append(Problem(job, "corr", "frames", "frames after re-open", k, out, m))
                 if not job.stored() and not (job.n <= F < job.n + SPB):
-                    probs.append(Problem(job, "pred", "frames", "%d frames written, the file re-opens with %d frames (not in [N, N + 120))" % (job.n, F), k))
+                    probs.append(Problem(job, "pred", "frames", "%d frames written, the file re-opens with %d frames (not in [N, N + 120))" % (job.n, F), k,
+                                         expect="frames=%d " % (((job.n + SPB - 1) // SPB) * SPB)))
             elif "open=ok" not in m:
                 probs.append(Problem(job, "corr", "open", "open for write", k, out, m))
         elif t[0] == "w":
@@ -512,7 +514,7 @@ def analyse(job, impl, model):
             if 0 <= ret < req:
                 z = next((i for i in range(ret, len(cells)) if int(cells[i], 16) != 0), None)
                 if z is not None or a.get("err") != "0":
-                    probs.append(Problem(job, "pred", "zerofill", "read of %d items returned %d: cell %s of the requested region is not zero / err=%s" % (req, ret, z, a.get("err")), k))
+                    probs.append(Problem(job, "pred", "zerofill", "read of %d items returned %d: cell %s of the requested region is not zero / err=%s" % (req, ret, z, a.get("err")), k, observed=out))
             shorts = [to_short(ty, c, job.flags) for c in got]
             if ref is None:
                 ref = shorts
@@ -523,7 +525,7 @@ def analyse(job, impl, model):
                 d = next((i for i in range(c) if shorts[i] != ref[pos + i]), None)
                 if d is not None:
                     probs.append(Problem(job, "pred", "stream", "read of %d %s items at frame %d: item %d stands for sample %s, the sequential read of another handle delivered %s there"
-                                         % (req, ty, pos, d, shorts[d], ref[pos + d]), k))
+                                         % (req, ty, pos, d, shorts[d], ref[pos + d]), k, observed=out))
                     broken = True
             pos += max(ret, 0)
         elif t[0] == "seek":
@@ -616,7 +618,7 @@ def run(ctx, prop, njobs):
         script = "\n".join(sl[:p.line + 1] if p.line is not None else sl) + "\n"
         if p.twin_script:
             script = hs[j.name] + "# --- the same caller values, one call per run of equal type:\n" + p.twin_script
-        head = "expect-last %s\n" % p.expect if p.expect and p.line is not None else ""
+        head = "expect-last %s\n" % p.expect if p.expect and p.line is not None else "observed-last %s\n" % p.observed if p.observed and p.line is not None else ""
         ctx.violation("%s-g72x-%s-%s" % (prop.lower(), j.fmtname, p.cat),
                       "# %s violated on the implementation's own transcript (G.72x campaign, predicate '%s')\n# format %s (%08x), 1 channel, %d frames, job kind %s, content %s\n# %s\n%s--- script\n%s"
                       % (prop, p.cat, j.fmtname, j.word, j.n, j.kind, j.cont, p.text, head, script))
